@@ -1342,6 +1342,107 @@ def _portfolio_chunk(job):
     return res[0].detail
 
 
+PF_STACK_SEQS = [("A1", "S"), ("Q", "P", "A1", "O", "S"), ("A1", "Q", "P", "A2", "O", "S"), ("P", "A1", "Q", "O", "S"), ("Q", "Q", "S"),
+                 ("A1", "P", "Q", "P", "A2", "O", "O", "S"), ("Q", "P", "A1", "S", "O", "Q", "P", "A2", "O", "S"), ("P", "A1", "P", "A2", "O", "S", "O", "S"),
+                 ("A1", "Q", "R", "A2", "S"), ("Q", "A1", "S"), ("P", "Q", "O", "A1", "S")]
+
+
+def _portfolio_stack_job(seqs):
+    """The portfolio as an incremental solver: for sequences of add_assertion / push / pop / reset / is_sat / solve the
+    formula handed to every member process is the conjunction of the live assertions (plus the one-shot formula)."""
+    repo = get_repo()
+    repo.add_virtual(PF_PROBE_MOD, PF_PROBE_SRC)
+    shape = Shape(("lit", True, BOOL))
+
+    def call(w, it, f0):
+        it.apply_decorators = {"pysmt.decorators.clear_pending_pop"}
+        names = ["m0", "m1"]
+        pmod = w.repo.modules["pysmt.solvers.portfolio"]
+        run_solver = it.module_global(pmod, "_run_solver")
+        logic = it.module_global(w.repo.modules["pysmt.logics"], "QF_BOOL")
+        a, b, c = w.symbol("a", BOOL), w.symbol("b", BOOL), w.symbol("c", BOOL)
+        forms = {"A1": w.app("Or", a, b), "A2": w.app("Not", a)}
+        h = w.app("Or", c, a)
+        out = []
+        for seq in seqs:
+            def mk_solver(i_, a_, k_):
+                return i_.instantiate(ClassRef(PF_PROBE_MOD + ".StubSolver"), [k_.get("name"), k_.get("logic"), "T", True], {})
+            factory = AObj("sa_probe.Factory", {"Solver": Prim(mk_solver, "factory.Solver"),
+                                                "all_solvers": Prim(lambda i_, a_, k_: list(names), "all_solvers")})
+            w.reset_run([], ["T", "T"], {})
+            w.env.attrs["_factory"] = factory
+            problems = []
+            try:
+                pf = it.instantiate(ClassRef(PORTFOLIO), [names, w.env, logic], {})
+                ref = [[]]
+                for i, st in enumerate(seq):
+                    if st in forms:
+                        it.call(it.getattr(pf, "add_assertion"), [forms[st]])
+                        ref[-1].append(forms[st])
+                    elif st == "P":
+                        it.call(it.getattr(pf, "push"), [])
+                        ref.append([])
+                    elif st == "O":
+                        it.call(it.getattr(pf, "pop"), [])
+                        ref.pop()
+                    elif st == "R":
+                        it.call(it.getattr(pf, "reset_assertions"), [])
+                        ref = [[]]
+                    else:
+                        msgs = {}
+                        for j, nm in enumerate(names):
+                            w.puts = []
+                            it.call(run_solver, ["%d (%s)" % (j, nm), nm, logic, {}, h, QueueModel(w), ConnModel(w, "child")])
+                            msgs[j] = w.puts[0]
+                        w.reset_run([("msg", 0, msgs[0]), ("msg", 1, msgs[1])], ["T", "T"], {})
+                        w.env.attrs["_factory"] = factory
+                        if st == "S":
+                            it.call(it.getattr(pf, "solve"), [])
+                            live = [g for fr in ref for g in fr]
+                        else:
+                            it.call(it.getattr(pf, "is_sat"), [h])
+                            live = [g for fr in ref for g in fr] + [h]
+                        want = w.app("And", live)
+                        for p_ in w.processes:
+                            sent = p_.args[4] if p_.args is not None and len(p_.args) > 4 else None
+                            if sent is not want:
+                                problems.append("step %d (%s): the members are asked about %s, the live assertions are %s"
+                                                % (i, {"S": "solve", "Q": "is_sat(c|a)"}[st], sc.node_str(w, sent) if w.is_node(sent) else sent,
+                                                   sc.node_str(w, want)))
+                                break
+                        if problems:
+                            break
+                out.append((seq, "ok" if not problems else "bad", problems[0] if problems else ""))
+            except AbsRaise as ex:
+                out.append((seq, "raise", "%s%s" % (ex.cls_name, proc._args(ex))))
+            except Unsupported as ex:
+                out.append((seq, "unsupported", str(ex)))
+        return out
+
+    def post(w, f, val, facts):
+        return proc.ProcResult(shape, "valid", val)
+    res = proc.run_proc(shape, call, post=post, services="full", max_paths=4, world_cls=PortfolioWorld,
+                        interp_kwargs={"max_steps": 20000000, "max_loop": 5000})
+    if len(res) != 1 or res[0].kind != "valid":
+        r = res[0]
+        return [(seq, "unsupported", "%s %s" % (r.kind, str(r.detail)[:200])) for seq in seqs]
+    return res[0].detail
+
+
+_PSCACHE = {}
+
+
+def portfolio_stack_results(repo, tier="quick"):
+    key = (repo.root, tier)
+    if key not in _PSCACHE:
+        chunks = [PF_STACK_SEQS[i:i + 3] for i in range(0, len(PF_STACK_SEQS), 3)]
+        out = []
+        for r in parallel_map(_portfolio_stack_job, chunks):
+            out.extend(r)
+        _PSCACHE[key] = out
+    return _PSCACHE[key]
+
+
 _PCACHE = {}
 
 
